@@ -453,7 +453,11 @@ static struct Register {
 		const int patterns[] = {0xFF, 0x00, 0xA5};
 		for(int pi = 0; pi < 3; ++pi) {
 			Cfg c; c.pattern = patterns[pi]; c.nested = true;
+#ifdef VERIF_ALLPATTERNS
+			int mt = 0;
+#else
 			int mt = pi == 0 ? 0 : 1;          // quick: 0xFF only (the pattern that makes garbage counters non-zero); thorough: all three
+#endif
 			std::string sfx = fmt("/mem%02X", patterns[pi]);
 #if SEL(0)
 			addUnit<ACallbackList<ST>, false>(VERIF_PREFIX "/CallbackList/single" + sfx, mt, c, 5, 7, 1, 1);
